@@ -385,9 +385,19 @@ inductive In
   | setAttacher (a : Option Nat)
   | answer (tok : Nat) (a : Ans)
   | via (coid : Nat) (addr : Text) (port : Nat)      -- `circuit.stream_via(…).connect(…)` whose SOCKS connection has this local address
+  | viaLost (addr : Text) (port : Nat)               -- the SOCKS connection made from this local address fails before its stream was seen
   deriving DecidableEq, Repr
 
 def listen (l : List Nat) (lid : Nat) : List Nat := if lid ∈ l then l else l ++ [lid]
+
+/-- the first registration under `key` gets the Deferred `g` instead of its own; `none` when there is none.
+    (`TorCircuitEndpoint.connect` fails with the SOCKS error, but the registration it made in
+    `_circuit_targets` stays — with a Deferred nobody holds any more.) -/
+def rekey (key : Text × Nat) (g : Nat) : List ((Text × Nat) × (Nat × Nat)) → Option (Nat × List ((Text × Nat) × (Nat × Nat)))
+  | [] => none
+  | e :: r =>
+    if e.1 = key then some (e.2.2, (e.1, (e.2.1, g)) :: r)
+    else (rekey key g r).map fun q => (q.1, e :: q.2)
 
 def step (s : St) : In → St × List Out
   | .circ args quit => circEvent s args quit
@@ -472,5 +482,9 @@ def step (s : St) : In → St × List Out
       ({ s1 with targets := (s1.targets.filter fun e => e.1 ≠ (addr, port)) ++ [((addr, port), (o, d))] }, [.deferred d])
     else if c.built.fired = some false then (s1, [.deferred d, .fire d false])
     else (s, [.err (str "via-before-built")])          -- connect() would wait for BUILT: not modelled
+  | .viaLost addr port =>
+    match rekey (addr, port) s.nextD s.targets with
+    | none => (s, [])
+    | some (d, ts) => ({ s with nextD := s.nextD + 1, targets := ts }, [.fire d false, .deferred s.nextD])
 
 end TxV.TorState
